@@ -3,6 +3,8 @@
     access <var> <func> <r|w> <lockHeld> <entry>   -> ok | table-mismatch   (row ∈ committed table, each row once)
     guard <var> <lock|atomic|none>                 -> ok | table-mismatch   (the lock common to all accesses of <var>)
     access-end                                     -> ok | table-mismatch missing=<n> first=<row>
+    dyncall <func> <calls> <go>                    -> ok | table-mismatch   (function-value calls the scan does not follow)
+    dyncall-end <n>                                -> ok | table-mismatch   (completeness of that list)
     sign <cacheHash> <cacheSig> <h>                -> ret <r> cache <hash> <sig>       (sequential SignBlock)
     sched <cacheHash> <cacheSig> <h0> <h1> <bits>  -> ret <r0|-> <r1|-> cache <hash> <sig>  (two unsynchronised calls, one merge)
 -/
@@ -39,6 +41,12 @@ def step (s : St) (w : List String) : St × String :=
     match Var.ofString? v with
     | some v => (s, if guards.contains (v, g) then "ok" else "table-mismatch")
     | none => (s, "table-mismatch")
+  | ["dyncall", f, a, b] =>
+    match a.toNat?, b.toNat? with
+    | some a, some b => (s, if dynCalls.contains (f, a, b) then "ok" else "table-mismatch")
+    | _, _ => (s, "bad-op")
+  | ["dyncall-end", n] =>
+    (s, if n.toNat? == some dynCalls.length then "ok" else s!"table-mismatch expected={dynCalls.length}")
   | ["access-end"] =>
     match s.remaining with
     | [] => (s, "ok")
